@@ -399,7 +399,8 @@ func (c *Ctx) nilContradictions(rule string, rels ...string) int {
 			}
 			for _, pr := range [][2]ssa.Value{{bo.X, bo.Y}, {bo.Y, bo.X}} {
 				if isNilConst(pr[1]) {
-					if _, isPtr := pr[0].Type().Underlying().(*types.Pointer); isPtr {
+					switch pr[0].Type().Underlying().(type) {
+					case *types.Pointer, *types.Interface:
 						tested[canon(pr[0])] = true
 					}
 				}
@@ -434,11 +435,17 @@ func (c *Ctx) nilContradictions(rule string, rels ...string) int {
 				}
 			case *ssa.Store:
 				p = x.Addr
+			case *ssa.Call:
+				if x.Call.IsInvoke() {
+					p = x.Call.Value // a method call on a nil interface value panics
+				}
 			}
 			if p == nil {
 				return
 			}
-			if _, isPtr := p.Type().Underlying().(*types.Pointer); !isPtr {
+			switch p.Type().Underlying().(type) {
+			case *types.Pointer, *types.Interface:
+			default:
 				return
 			}
 			cp := canon(p)
